@@ -174,3 +174,36 @@ package stor
 //@   guarantee rewind_unpublished: s.size.v < old(s.size.v) ==> s.size.v >= (uint64(s.allocChunk.v) + 1) << uint64(s.shift)
 //@   guarantee table_grows: typeis(s.chunks.v, "[][]byte") && len(unbox(s.chunks.v, "[][]byte")) >= len(old(unbox(s.chunks.v, "[][]byte"))) && forall k :: 0 <= k && k < len(old(unbox(s.chunks.v, "[][]byte"))) ==> unbox(s.chunks.v, "[][]byte")[k] == old(unbox(s.chunks.v, "[][]byte")[k])
 //@   loop 0 unroll 3
+
+//@ property C19
+// ---- searching the store for a marker (used by as-of/history and by repair) ----------------------
+// LastOffset finds an occurrence of str that lies completely below off and inside one chunk;
+// FirstOffset one that starts at or after off. 0 means not found.
+//@ spec storMapped(s *Stor) bool = 0 < s.shift && s.shift < 40 && s.chunksize == pow2(s.shift) && typeis(s.chunks.v, "[][]byte") && len(unbox(s.chunks.v, "[][]byte")) < 1000000 && (forall k :: 0 <= k && k < len(unbox(s.chunks.v, "[][]byte")) ==> len(unbox(s.chunks.v, "[][]byte")[k]) == s.chunksize)
+// (the match is stated with the chunk number rc and the position ri inside the chunk as ghost results:
+// r == rc*chunksize + ri; addr_split relates that to the shift/mask addressing used by Data)
+//@ lemma! addr_split(shift uint64, rc uint64, ri uint64): 0 < shift && shift < 40 && rc < 1000000 && ri < pow2(shift) ==> ((rc * pow2(shift) + ri) >> shift) == rc && ((rc * pow2(shift) + ri) & (pow2(shift) - 1)) == ri
+//@   mode bv
+//@ func (s *Stor) LastOffset(off, str, stop) (r)
+//@   mode bv
+//@   requires s != nil && storMapped(s) && off <= uint64(len(unbox(s.chunks.v, "[][]byte"))) << uint64(s.shift) && 0 < len(str) && len(str) <= s.chunksize
+//@   ensures! below: r != 0 ==> r < off && r + uint64(len(str)) <= off
+//@   ensures! one_chunk: r != 0 ==> (r >> uint64(s.shift)) == ((r + uint64(len(str)) - 1) >> uint64(s.shift)) && int(r >> uint64(s.shift)) < len(unbox(s.chunks.v, "[][]byte"))
+//@   ghost rc int = c
+//@   ghost ri int = i
+//@   ensures! found: r != 0 ==> 0 <= rc && rc < len(unbox(s.chunks.v, "[][]byte")) && 0 <= ri && r == uint64(rc) * s.chunksize + uint64(ri) && uint64(ri) + uint64(len(str)) <= s.chunksize && forall k :: 0 <= k && k < len(str) ==> unbox(s.chunks.v, "[][]byte")[rc][ri + k] == str[k]
+//@   loop 0 invariant -1 <= c && c < len(chunks) && 0 < n && n <= s.chunksize && uint64(c) * s.chunksize + n <= off
+//@   loop 0 decreases c + 1
+//@ func (s *Stor) FirstOffset(off, str) (r)
+//@   mode bv
+//@   requires s != nil && storMapped(s) && off < uint64(len(unbox(s.chunks.v, "[][]byte"))) << uint64(s.shift) && 0 < len(str) && len(str) <= s.chunksize
+//@   ensures! at_or_after: r != 0 ==> r >= off
+//@   ensures! one_chunk: r != 0 ==> (r >> uint64(s.shift)) == ((r + uint64(len(str)) - 1) >> uint64(s.shift)) && int(r >> uint64(s.shift)) < len(unbox(s.chunks.v, "[][]byte"))
+//@   ghost rc int = c
+//@   ghost ri uint64 = n + uint64(i)
+//@   ensures! found: r != 0 ==> 0 <= rc && rc < len(unbox(s.chunks.v, "[][]byte")) && r == uint64(rc) * s.chunksize + ri && ri + uint64(len(str)) <= s.chunksize && forall k :: 0 <= k && k < len(str) ==> unbox(s.chunks.v, "[][]byte")[rc][ri + uint64(k)] == str[k]
+//@   loop 0 invariant 0 <= c && c <= len(chunks) && n < s.chunksize && (c < len(chunks) ==> uint64(c) * s.chunksize + n >= off)
+//@   loop 0 decreases len(chunks) - c
+//@ func (s *Stor) Size() (r)
+//@   assumed
+//@   pure
